@@ -1,4 +1,5 @@
 import CssVerif.Model.EncutilsDoc
+import CssVerif.Model.EncutilsXml
 open CssVerif.Proto CssVerif.Encutils
 
 /-- optional string on the wire: `N` = None, otherwise dotted hex (`-` = empty) -/
@@ -119,6 +120,11 @@ def handle (line : String) : String :=
         | .ok i => showInfo i
         | .error e => "ERR " ++ showErr e
       | _, _, _, _, _, _, _ => "bad-op"
+  | ["strict", d] => match decCps d with
+      | some l => match parseXmlDecl l with
+        | some (e, rest) => "WF " ++ encOpt e ++ " " ++ toString (l.length - rest.length)
+        | none => "NODECL"
+      | none => "bad-op"
   | "meta" :: ws => match decEvents ws.length ws with
       | some evs => encOpt (metaScan evs)
       | none => "bad-op"
